@@ -171,7 +171,8 @@ PROPS = {
         "level_text": "Coq theorems about the code-shaped model of the predicate-graph checker and an independent reference semantics (Spec/GraphRef.v): the level sort succeeds exactly on acyclic graphs, lists every node once with every edge going to a strictly later level, and never panics or runs out of fuel; malformed or cyclic graphs are rejected with the invalid-graph error before a single program is run; every node is run exactly once after all its parents on exactly the concatenation of their outputs in ascending parent order (nothing dropped by the filter_map); the verdict, gas and data outputs equal the reference; the first reported failing node is a genuine failure; the verdict, gas and data are invariant under renumberings that keep the order of co-parents; the two run modes over a shared cache evaluate each node exactly once. Correspondence: random DAGs with non-topological numberings, multi-edges, diamonds, raw malformed/cyclic/dangling encodings, 1-3 solutions, both collect_all values; the run recorder hook reports every program run with its inputs; the reference semantics is evaluated against the implementation's verdict, gas, returned set and runs.",
         "properties": ["Properties/C01", "Properties/TwoModeThms", "Properties/C01Renumber"],
         "corr": ["Corr/RunGraph"],
-        "engines": [{"engine": "graph", "quick": 900, "thorough": 20000}],
+        "engines": [{"engine": "graph", "quick": 900, "thorough": 20000},
+                    {"engine": "helpers", "quick": 800, "thorough": 20000}],
         "rule": "abstract random DAGs of 1..8 nodes numbered with non-leaves first in arbitrary (usually non-topological) order, multi-edges, "
                 "reversed child lists; raw random edge_start/edges vectors (overlapping ranges, leaves in the middle, invalid ranges, cycles, "
                 "self loops, dangling targets); node programs: constants, pass-through, memory producers, pre/post/extern state readers, "
@@ -200,7 +201,8 @@ PROPS = {
         "properties": "Properties/C03",
         "corr": ["Corr/RunGraph"],
         "engines": [{"engine": "post", "quick": 1200, "thorough": 30000},
-                    {"engine": "graph", "name": "graph03", "quick": 500, "thorough": 10000}],
+                    {"engine": "graph", "name": "graph03", "quick": 500, "thorough": 10000},
+                    {"engine": "helpers", "name": "helpers03", "quick": 500, "thorough": 10000}],
         "rule": "post engine: keys of 0..3 words from {MIN,-1,0,1,2,5,MAX-1,MAX,7} and their successor neighbourhoods, three contracts (one never "
                 "has proposals), proposals incl. deletions and re-proposals, counts 0,1,2..8,5000 and isize::MAX near the maximal key; graph engine: "
                 "pre/post/extern readers at random graph positions with declared and computed mutations",
